@@ -215,6 +215,7 @@ func baseEnv(root string, race bool, work string) []string {
 		"TMPDIR=" + filepath.Join(work, "tmp"),
 		"VERIF_ROOT=" + root,
 		"GOTRACEBACK=all",
+		"VERIF_REPO_DIR=" + os.Getenv("VERIF_REPO_DIR"),
 	}
 	_ = os.MkdirAll(filepath.Join(work, "home"), 0o755)
 	_ = os.MkdirAll(filepath.Join(work, "tmp"), 0o755)
